@@ -1,6 +1,7 @@
 /- C06: proof obligations on the CURRENT ev.c (configuration regenerated into Gen/Ev.lean).  Same namespace as
    Props/C06.lean; separate module so that a tree lacking one of the tests breaks exactly these obligations. -/
 import JanetModel.Props.C06
+import JanetModel.Ev.Wakeup
 namespace JanetModel.Props.C06
 open JanetModel.Ev
 
@@ -19,5 +20,91 @@ theorem no_lost_wakeup_partial :
 
 /-- the current source has every test the model knows about, with the reference operators -/
 theorem current_source_checks : currentCfg = Cfg.good := by decide
+
+/-! ## invariants over ALL action sequences, for the configuration of the current source -/
+
+theorem current_good : CfgGood currentCfg := ⟨by decide, by decide, by decide, by decide, by decide⟩
+
+/-- **channel invariant**, every action sequence, every channel:
+    * a pending reader whose sched_id is current ⇒ the channel holds no item;
+    * (number of pending writers whose sched_id is current) = 0, or that number + limit ≤ number of items - in
+      particular a live pending writer ⇒ count > limit, the code's own blocking condition;
+    * a closed channel has no pending entries; no entry carries a sched_id from the future. -/
+theorem chan_invariant (limits : Nat → Nat) (as : List Action) (c : Nat) :
+    ChanOK (run currentCfg (World.start limits) as).fibers ((run currentCfg (World.start limits) as).chans c) :=
+  (Ev.run_good current_good.chan as _ (Ev.start_good limits)).1 c
+
+/-- **fifo_per_channel** (full): after every action sequence, for every channel, the values pushed into it, in push
+    order, are exactly the values it has handed out, in hand-out order, followed by the values still queued. -/
+theorem fifo_per_channel (limits : Nat → Nat) (as : List Action) (c : Nat) :
+    let w := run currentCfg (World.start limits) as
+    onChan w.ghost.pushed c = onChan w.ghost.handed c ++ (w.chans c).items :=
+  (Ev.run_good current_good.chan as _ (Ev.start_good limits)).2 c
+
+/-- **no_lost_wakeup**: after every action sequence in which no select names a channel twice,
+    * every suspended fiber has a live wake-up source: a task carrying its current sched_id, or a sleep timer, or a
+      registration in a channel queue (`d1`);
+    * these are exclusive: a live task excludes live timers and registrations (`d3`), there is at most one live task
+      (`d0`), and a fiber that is not suspended (new, running between operations, finished) has none (`d2`, `WQuiet`);
+    * a cancelled fiber still has its task (`e`).
+    Together with `chan_invariant` (a live reader never coexists with an item or a live writer on its channel) no fiber
+    stays suspended once its operation has been matched or could be matched by a waiting counterpart. -/
+theorem no_lost_wakeup (limits : Nat → Nat) (as : List Action) (hns : ∀ a ∈ as, a.noSelfMatch) :
+    WInv (run currentCfg (World.start limits) as) :=
+  Ev.run_W current_good as _ hns (Ev.start_W limits)
+
+/-- **terminates_when_matchable**, as the statement about the only way the loop can go idle: if after some action
+    sequence nothing is runnable (no task, no timer, no running fiber), then every suspended fiber `f` is registered on
+    some channel `c` on which its operation cannot be matched: as a reader, `c` holds no item and has no live writer; as a
+    writer, `c` is above capacity and has no live reader.  (Contrapositive: if the remaining operations could be matched
+    with each other, the loop is not idle - the program runs on.) -/
+theorem terminates_when_matchable (limits : Nat → Nat) (as : List Action) (hns : ∀ a ∈ as, a.noSelfMatch) (f : Nat)
+    (w : World) (hw : w = run currentCfg (World.start limits) as) :
+    w.runq = [] → w.timers = [] → (w.fibers f).status = .pending →
+    ∃ c p, p.fiber = f ∧ p.sched = (w.fibers f).sched ∧
+      ((p ∈ (w.chans c).readPending ∧ (w.chans c).items = [] ∧ liveCount w.fibers (w.chans c).writePending = 0) ∨
+       (p ∈ (w.chans c).writePending ∧ (w.chans c).limit < (w.chans c).items.length ∧
+          hasLiveReader w.fibers (w.chans c).readPending = false)) := by
+  subst hw
+  intro hrq htm hst
+  have hW := no_lost_wakeup limits as hns
+  have hC := chan_invariant limits as
+  generalize run currentCfg (World.start limits) as = w at *
+  rcases hW.1.d1 f hst with h | h | h
+  · simp [Ev.LT, hrq] at h
+  · obtain ⟨t, ht, _⟩ := h; rw [htm] at ht; simp at ht
+  · obtain ⟨c, p, hp, hpf, hps⟩ := h
+    have hc := hC c
+    have hplive : p.live w.fibers = true := by rw [live_iff, hpf]; exact hps
+    refine ⟨c, p, hpf, hps, ?_⟩
+    rcases (mem_ent w c p).mp hp with hp | hp
+    · left
+      have hr : hasLiveReader w.fibers (w.chans c).readPending = true := by
+        unfold hasLiveReader; rw [List.any_eq_true]; exact ⟨p, hp, hplive⟩
+      have hit := hc.reader hr
+      refine ⟨hp, hit, ?_⟩
+      rcases hc.writer with h0 | hw
+      · exact h0
+      · rw [hit] at hw; simp at hw; exact hw.1
+    · right
+      have hpos : 0 < liveCount w.fibers (w.chans c).writePending := by
+        unfold liveCount; exact List.countP_pos_iff.mpr ⟨p, hp, hplive⟩
+      have hlim : (w.chans c).limit < (w.chans c).items.length := by
+        rcases hc.writer with h0 | hw <;> omega
+      refine ⟨hp, hlim, ?_⟩
+      cases hr : hasLiveReader w.fibers (w.chans c).readPending
+      · rfl
+      · have := hc.reader hr; rw [this] at hlim; simp at hlim
+
+/-- `noSelfMatch` is needed: `(ev/select c0 [c0 5] c0)` alone in a fiber is matched with itself in the registration
+    loop; when the fiber runs again - its select has returned `[:take c0 5]` - it still has a current registration in
+    c0's read queue, which `no_lost_wakeup` (`WQuiet`) excludes.  (Configuration with every check.) -/
+def selfMatchActs : List Action :=
+  [.timers, .runTask, .go 1, .finish false, .runTask, .select [.take 0, .give 0 5, .take 0], .runTask]
+
+theorem noSelfMatch_needed :
+    let w := run Cfg.good (World.start fun _ => 0) selfMatchActs
+    w.current = some 1 ∧ (w.chans 0).readPending.any (fun p => p.fiber == 1 && p.live w.fibers) = true ∧
+    w.ghost.received = [(1, 5)] := by decide
 
 end JanetModel.Props.C06
